@@ -14,6 +14,13 @@ func init() { register("C11", checkC11) }
 var c11FaultExprs = []string{
 	"(1 / 0)", "(7 % 0)", "nf(1)", "(\"a\" ~ \"(\")", "([1] < 2)", "$nope", "printf(\"%d\", 1)",
 	"[1][0 - 5]", "\"a\\q\"", "json(tf)", "num()", "garr.push()", "({a: 1} > 0)", "(\"x\" !~ 5)",
+	// further members of the listed kinds: a divisor that is zero only after conversion / truncation, containers compared
+	// inside a method, other non-functions, other bad printf arguments, other malformed regexes
+	"(7 % 0.5)", "(7 % \"0.9\")", "(7 % (0 - 0.25))", "(1 / \"0\")", "(1 / null)", "(0 / 0)", "(1 / (sc - 1))",
+	"([1] == [1])", "({} != {})", "[[1], 2].contains(2)", "[1].contains({})", "garr.contains([1])",
+	"\"x\"()", "[1]()", "null()", "(1).upper()", "fo.nosuch()",
+	"printf(\"%q\", 1)", "printf(\"%5\", 1)", "printf(\"%s %s\", 1)", "printf(1)",
+	"(\"a\" ~ \"[z-a]\")", "(\"a\" !~ \"(?<\")", "$0", "\"a\".split()", "json()",
 }
 
 // syntactic shapes that put a failing expression E into a slot of a statement
